@@ -159,7 +159,7 @@ PROPS = {
         "assumptions": ["each lifecycle call is one atomic step (bucket.mutex / cluster.lock)", "a closed done channel means the feed goroutine has left its loop"],
     },
     "C20": {
-        "families": [{"family": "shut"}],
+        "families": [{"family": "shut"}, {"family": "life"}],
         "level_text": "Partial. Proved (Locks.v) for every number of threads and every schedule: threads that acquire locks in strictly increasing rank and release what they took never reach a stuck configuration and leave no lock held (C20_rank_discipline_no_deadlock, C20_no_lock_left); rosmar's code paths - write, read, feed start, CloseAndDelete, last Close, DropDataStore, OpenBucket, view update, transcribed by hand as lock sequences over bucket.mutex, cluster.lock, expiryManager.mutex, Collection.mutex, queue locks and the HLC mutex - follow that discipline (checked by computation), hence cannot deadlock among themselves (C20_paths_no_deadlock); the expiry timer's callback does not, and a stuck configuration against CloseAndDelete is exhibited (C20_timer_deadlock_refuted = KF-C20-deadlock). On the code: 132 scenarios, each in a child process with a watchdog - a racer (writer, sub-document writer, view query, feed start, another Close, the timer's callback) parked at a hook point (transaction begin / pre-commit / committed, before setLastCas, before posting, postEvent's snapshot, the subdoc window, feed.preregister, expiry.fire, expiry.window, close.unregistered) against CloseAndDelete, the last Close, a non-last Close and DropDataStore, in-memory and on-disk; outcome = ok / panic / deadlock / leaked feed or timer goroutine / another bucket unusable / raced call never returned, compared with the expected outcome (ok everywhere except the three known windows).",
         "level_note": "The lock table is transcribed by hand and is not tied to the source mechanically; the scenarios are what watches it. 'Leaked goroutine' is judged from runtime.Stack and the feed counter 150 ms after the store shut down; the terminator-watcher goroutine of a feed whose client never closes its terminator is not counted. Trusted: Coq kernel + vm_compute, Go harness.",
         "assumptions": ["the lock acquisition table of Locks.v matches the Go code (hand-transcribed)", "a watchdog of 5 s distinguishes a deadlock from slowness"],
